@@ -425,6 +425,7 @@ type w1Instance struct {
 	endCode    uint32
 	startAt    time.Duration
 	endKind    string
+	endReplyID uint32 // command id an ending unsubscribe reply answers
 	overlap    bool  // started by a push:sub that arrived while a subscription was active
 	tf, delta  bool  // client tags filter used / delta negotiated
 	originSeq  int64 // when the request that started it was issued (command sent / push observed)
@@ -524,6 +525,7 @@ func (w *w1World) checkClientLog(cl *w1SimClient) {
 			in.endSeq = f.Seq
 			in.endCode = f.Code
 			in.endKind = f.Kind
+			in.endReplyID = f.ReplyID
 			delete(active, ch)
 		}
 	}
@@ -672,6 +674,11 @@ func (w *w1World) checkClientLog(cl *w1SimClient) {
 						sig = early
 					} else if prev.overlap {
 						sig += " after overlapping server-side subscribe and unsubscribe"
+					} else if prev.endKind == "unsubscribe" && w.serverUnsubInProgress(cl, f.Ch, prev, cmdByID) {
+						// the unsubscribe command found a server-side unsubscribe of the channel
+						// already tearing the subscription down: it is answered at once, before
+						// the other one has removed the routing entry
+						sig += " [the unsubscribe command was answered while a server-side unsubscribe of the channel was in progress]"
 					} else if prev.endKind == "push:unsub" {
 						// did the server end this subscription at all? (Client.Unsubscribe sends
 						// an unsubscribe push even when it removed nothing)
@@ -905,6 +912,23 @@ func (w *w1World) checkMediumOrder(in *w1Instance) {
 	}
 }
 
+// serverUnsubInProgress: was a node-level / Client.Unsubscribe of the channel that concerns
+// this connection running when the unsubscribe command that ended the instance was handled?
+// (classification of signatures only)
+func (w *w1World) serverUnsubInProgress(cl *w1SimClient, ch string, in *w1Instance, cmdByID map[uint32]*w1Cmd) bool {
+	c := cmdByID[in.endReplyID]
+	if c == nil {
+		return false
+	}
+	for _, op := range w.nodeOps {
+		mine := (op.Kind == "nunsub" && op.User == cl.spec.User) || (op.Kind == "cunsub" && op.C == cl.idx)
+		if mine && op.Ch == ch && op.Seq < in.endSeq && (op.RetSeq == 0 || op.RetSeq > c.Seq) {
+			return true
+		}
+	}
+	return false
+}
+
 // filteredFor reports whether the subscription's tags filters withhold a publication.
 func (w *w1World) filteredFor(in *w1Instance, t *w1PubRec) bool {
 	// the server tags filter comes from SubscribeOptions (OnSubscribe reply or
@@ -971,7 +995,7 @@ func (w *w1World) checkFilterAndDelta(in *w1Instance) {
 			continue
 		}
 		if p.Delta {
-			s.Violate("C14", "delta-not-negotiated", "delta delivered to a subscription that did not negotiate it", "client %d %s offset %d", in.cl.idx, in.ch, p.Offset)
+			s.Violate("C14", "delta-not-negotiated", "delta delivered to a subscription that did not negotiate it"+w.rnq(), "client %d %s offset %d", in.cl.idx, in.ch, p.Offset)
 		}
 		// C16: the publication must pass both filters
 		if truth == nil {
